@@ -35,14 +35,16 @@ MANIFEST = {
     "ref": "6 C20",
 }
 RULE = ("histories of 1-20 operations (match with has_no_result/succeeded(m)/failed(m), m from Always/Never/Is k closed "
-        "under Not/MatchesAll/MatchesAny; callback(v); errback(e); addCallbacks with pass/constant/raise/recording "
+        "under Not/MatchesAll/MatchesAny; callback(v); errback(e), e an ordinary class, Twisted's AlreadyCalledError/CancelledError or the helpers' "
+        "own DeferredNotFired/ImpossibleDeferredError; addCallbacks with pass/constant/raise/recording "
         "functions or one returning an unfired Deferred; pause/unpause; firing or failing the Deferred the chain waits "
         "for; extract_result) on one fresh real Deferred, each followed by dropping the Deferred and gc.collect() "
         "under a log observer: fixed corners, each Deferred state with 0-3 callbacks x all matchers, all histories to "
         "length 4 with a match over a reduced alphabet (subsampled; a fire appended when there is none; a recording "
         "callback appended), random ones built as callbacks-before + body + callbacks-after and repaired to contain "
         "a match, a fire/fail and a callback; plus SynchronousDeferredRunTest on every stage position x "
-        "return/raise; non-trivial = at least one match and one fire/fail and one callback (or a sync case); "
+        "return/raise of every exception class incl. DeferredNotFired (also out of extract_result on an unfired "
+        "Deferred) and ImpossibleDeferredError, an exception escaping run() being an event; non-trivial = at least one match and one fire/fail and one callback (or a sync case); "
         "distinct = distinct JSON")
 TRUSTED = ["PARTIAL: Twisted's Deferred, DebugInfo.__del__/GC and the log publisher are modelled, not verified",
            "the state of a Deferred is observed by inspecting .called/.paused/.result of the real object",
@@ -59,6 +61,10 @@ EXPLANATION = ("Theorems in coq/Props/C20.v; correspondence: real matchers on re
 MAXTASKS = 400
 
 N_EXC = 4
+NOTFIRED, IMPOSSIBLE = 90, 91        # Model.DeferredMatchers.notfired_tok / impossible_tok
+# exception class tokens: 0-3 ordinary classes, 4/5 Twisted's own AlreadyCalledError / CancelledError, and the two
+# classes the helpers under test raise themselves (a failure or a test may carry them just as well)
+EXC_TOKS = [0, 1, 2, 3, 4, 5, NOTFIRED, IMPOSSIBLE]
 CAUGHT = 4999
 
 
@@ -73,11 +79,33 @@ class _Ctx:
         from twisted.python.failure import Failure
         self.Failure = Failure
         self.vals, self.excs = _pools()
+        from twisted.internet import defer
+        from testtools.twistedsupport._deferred import DeferredNotFired, ImpossibleDeferredError
+        self.special = {4: defer.AlreadyCalledError, 5: defer.CancelledError, NOTFIRED: DeferredNotFired,
+                        IMPOSSIBLE: ImpossibleDeferredError}
         self.unknown = object()        # a value outside the pool (token 98)
+
+    def mkexc(self, t):
+        """an exception instance of the class with token t"""
+        from twisted.internet import defer
+        if t == NOTFIRED:
+            return self.special[t](defer.Deferred())
+        if t == IMPOSSIBLE:
+            return self.special[t](defer.Deferred(), [], [])
+        if t in self.special:
+            return self.special[t]()
+        return self.excs[t]()
+
+    def exctok(self, e):
+        """class token of an exception instance (99: outside the pools)"""
+        for t, cls in self.special.items():
+            if type(e) is cls:
+                return t
+        return self.excs.index(type(e)) if type(e) in self.excs else 99
 
     def tok(self, x):
         if isinstance(x, self.Failure):
-            return ["err", self.excs.index(type(x.value)) if type(x.value) in self.excs else 99]
+            return ["err", self.exctok(x.value)]
         for k, v in enumerate(self.vals):
             if x is v:
                 return ["val", k]
@@ -108,7 +136,7 @@ class _Ctx:
             return lambda x: self.vals[spec[1]] if spec[1] < len(self.vals) else self.unknown
         if kind == "raise":
             def f(x):
-                raise self.excs[spec[1]]()
+                raise self.mkexc(spec[1])
             return f
         if kind == "rec":
             def g(x):
@@ -201,7 +229,7 @@ def _run_history(ctx, ops, want_erased):
                     if k == "fire":
                         d.callback(ctx.vals[op[1]])
                     else:
-                        d.errback(ctx.excs[op[1]]())
+                        d.errback(ctx.mkexc(op[1]))
                     out = ["done"]
                 except defer.AlreadyCalledError:
                     out = ["already"]
@@ -223,16 +251,17 @@ def _run_history(ctx, ops, want_erased):
                     if op[1] == "val":
                         a.callback(ctx.vals[op[2]])
                     else:
-                        a.errback(ctx.excs[op[2]]())
+                        a.errback(ctx.mkexc(op[2]))
                     a = None
                 out = ["done"]
             elif k == "extract":
                 try:
                     out = ["extract", ["ok", ctx.tok(extract_result(d))[1]]]
-                except DeferredNotFired:
-                    out = ["extract", ["raised", "notfired"]]
                 except Exception as e:
-                    out = ["extract", ["raised", ctx.excs.index(type(e)) if type(e) in ctx.excs else "other"]]
+                    # by class only: DeferredNotFired is token 90 whether extract_result raised it because there
+                    # is no result or because the failure carries one
+                    t = ctx.exctok(e)
+                    out = ["extract", ["raised", t if t != 99 else "other"]]
             else:
                 raise ValueError(op)
             if keep:
@@ -272,12 +301,18 @@ def _drive_sync(ctx, case):
     from testtools.twistedsupport import SynchronousDeferredRunTest
     from testtools.twistedsupport._deferred import DeferredNotFired
     from twisted.internet import defer
+    from testtools.twistedsupport._deferred import ImpossibleDeferredError, extract_result
     kind, x, pos = case["what"][0], case["what"][1], case["pos"]
+    via_extract = len(case["what"]) > 2      # the DeferredNotFired comes out of extract_result(<unfired Deferred>)
 
     def exc_for(tc):
-        return [ValueError("v"), tc.failureException("f"), tc.skipException("s"), ctx.excs[3]()][x]
+        if x < 4:
+            return [ValueError("v"), tc.failureException("f"), tc.skipException("s"), ctx.excs[3]()][x]
+        return ctx.mkexc(x)
 
     def exc_tok(e):
+        if type(e) in ctx.special.values():
+            return ctx.exctok(e)
         if isinstance(e, ctx.excs[3]):
             return 3
         if isinstance(e, testtools.TestCase.skipException):
@@ -296,9 +331,15 @@ def _drive_sync(ctx, case):
         if mode == "direct":
             if kind == "ok":
                 return ctx.vals[x]
+            if via_extract:
+                return extract_result(defer.Deferred())
             raise exc_for(tc)
         if mode == "fired":
-            return defer.succeed(ctx.vals[x]) if kind == "ok" else defer.fail(exc_for(tc))
+            if kind == "ok":
+                return defer.succeed(ctx.vals[x])
+            if via_extract:
+                return defer.maybeDeferred(extract_result, defer.Deferred())
+            return defer.fail(exc_for(tc))
         return defer.Deferred()
 
     def user(runner_cls, mode):
@@ -337,7 +378,11 @@ def _drive_sync(ctx, case):
                 if pos == 2:
                     return behave(self, mode)
         res = ExtendedTestResult()
-        T("test_x").run(res)
+        escaped = False
+        try:
+            T("test_x").run(res)
+        except Exception:
+            escaped = True               # an exception came out of run(): an event of its own (99x)
         out = []
         for ev in res._events:
             code = EVENT.get(ev[0], 9)
@@ -345,6 +390,8 @@ def _drive_sync(ctx, case):
             if len(ev) > 2 and isinstance(ev[2], dict):
                 nd = min(len(ev[2]), 9)
             out.append(code * 10 + nd)
+        if escaped:
+            out.append(990)
         return out
 
     return {"direct": user(RunTest, "direct"), "fired": user(SynchronousDeferredRunTest, "fired"),
@@ -402,8 +449,7 @@ def t_dres(s):
 def t_x(r):
     if r[0] == "ok":
         return "(Ok %s)" % q.nat(r[1])
-    return "(Raised %s)" % ("XNotFired" if r[1] == "notfired" else "XOther" if r[1] == "other"
-                            else "(XUser %s)" % q.nat(r[1]))
+    return "(Raised %s)" % ("XOther" if r[1] == "other" else "(XUser %s)" % q.nat(r[1]))
 
 
 def t_out(o):
@@ -423,7 +469,7 @@ def t_uret(u):
         return "(URet %s)" % q.nat(u[1])
     if u[0] == "caught":
         return "(UCaught %s)" % q.nat(u[1])
-    return "(URaised %s)" % ("XNotFired" if u[1] == "notfired" else "XOther")
+    return "(URaised %s)" % ("(XUser %d)" % NOTFIRED if u[1] == "notfired" else "XOther")
 
 
 def term(case, o):
@@ -457,19 +503,21 @@ def perturb(case, o):
 # ---------------- generation ----------------
 MATCHERS = [["noresult"], ["succeeded", ["always"]], ["failed", ["always"]], ["succeeded", ["never"]],
             ["failed", ["never"]], ["succeeded", ["is", 3]], ["succeeded", ["is", 0]], ["failed", ["is", 1]],
-            ["failed", ["is", 2]],
+            ["failed", ["is", 2]], ["failed", ["is", NOTFIRED]], ["failed", ["not", ["is", NOTFIRED]]],
+            ["failed", ["either", ["is", IMPOSSIBLE], ["is", 4]]],
             # nested inner matchers
             ["succeeded", ["not", ["is", 3]]], ["failed", ["not", ["is", 1]]],
             ["succeeded", ["either", ["is", 0], ["is", 3]]], ["failed", ["both", ["not", ["is", 2]], ["always"]]],
             ["succeeded", ["both", ["is", 3], ["not", ["never"]]]], ["failed", ["either", ["never"], ["is", 2]]]]
-CBS = [["pass"], ["const", 0], ["const", 3], ["raise", 1], ["rec", 1], ["rec", 2], ["recnone", 3], ["wait"]]
+CBS = [["pass"], ["const", 0], ["const", 3], ["raise", 1], ["rec", 1], ["rec", 2], ["recnone", 3], ["wait"],
+       ["raise", NOTFIRED]]
 RECS = [["rec", 1], ["rec", 2], ["recnone", 3]]
 
 
 def rand_inner(rng, depth=2):
     r = rng.random()
     if depth == 0 or r < 0.55:
-        return rng.choice([["always"], ["never"], ["is", rng.choice([0, 1, 2, 3])]])
+        return rng.choice([["always"], ["never"], ["is", rng.choice([0, 1, 2, 3, 3, NOTFIRED, NOTFIRED, IMPOSSIBLE, 4])]])
     if r < 0.7:
         return ["not", rand_inner(rng, depth - 1)]
     return [rng.choice(["both", "either"]), rand_inner(rng, depth - 1), rand_inner(rng, depth - 1)]
@@ -484,6 +532,16 @@ def rand_matcher(rng):
     return [rng.choice(["succeeded", "failed"]), rand_inner(rng)]
 
 
+def rand_exc(rng):
+    # a third of the failures carry the exception classes the helpers raise themselves
+    r = rng.random()
+    if r < 0.22:
+        return NOTFIRED
+    if r < 0.32:
+        return IMPOSSIBLE
+    return rng.choice([0, 1, 2, 3, 4, 5])
+
+
 def rand_add(rng):
     # mostly a recorder on at least one side: what later/earlier callbacks see is the point
     r = rng.random()
@@ -491,7 +549,7 @@ def rand_add(rng):
         return ["add", rng.choice(RECS), rng.choice(RECS)]
     if r < 0.75:
         return ["add", rng.choice(CBS), rng.choice(CBS)]
-    return rng.choice([["add", ["raise", rng.randrange(N_EXC)], ["pass"]], ["add", ["pass"], ["const", rng.choice([0, 3, 5])]],
+    return rng.choice([["add", ["raise", rand_exc(rng)], ["pass"]], ["add", ["pass"], ["const", rng.choice([0, 3, 5])]],
                        ["add", ["wait"], ["wait"]], ["add", ["const", 3], ["raise", 2]], ["add", ["wait"], ["pass"]],
                        ["add", ["pass"], ["wait"]]])
 
@@ -499,7 +557,7 @@ def rand_add(rng):
 def rand_fire(rng):
     if rng.random() < 0.5:
         return ["fire", rng.choice([0, 0, 1, 2, 3, 3, 4, 5, 6])]
-    return ["fail", rng.randrange(N_EXC)]
+    return ["fail", rand_exc(rng)]
 
 
 def rand_op(rng):
@@ -515,7 +573,7 @@ def rand_op(rng):
     if r < 0.90:
         return ["unpause"]
     if r < 0.97:
-        return ["resume", "val", rng.choice([0, 3, 6])] if rng.random() < 0.6 else ["resume", "err", rng.randrange(N_EXC)]
+        return ["resume", "val", rng.choice([0, 3, 6])] if rng.random() < 0.6 else ["resume", "err", rand_exc(rng)]
     return ["extract"]
 
 
@@ -551,7 +609,8 @@ def generate(rng, tier):
         cases.append({"kind": "hist", "ops": [list(o) for o in ops]})
     # SynchronousDeferredRunTest (first: the coverage sample of the evidence always contains case 0)
     for pos in range(4):
-        for w in [["ok", 0], ["ok", 3], ["ok", 6], ["err", 0], ["err", 1], ["err", 2], ["err", 3]]:
+        for w in [["ok", 0], ["ok", 3], ["ok", 6], ["err", 0], ["err", 1], ["err", 2], ["err", 3], ["err", 4],
+                  ["err", 5], ["err", NOTFIRED], ["err", NOTFIRED, "via_extract"], ["err", IMPOSSIBLE]]:
             cases.append({"kind": "sync", "pos": pos, "what": w})
     rec = lambda t: ["add", ["rec", t], ["rec", t]]          # noqa: E731
     tri = [["match", MATCHERS[0]], ["match", MATCHERS[1]], ["match", MATCHERS[2]]]
@@ -567,6 +626,14 @@ def generate(rng, tier):
     hist([["fire", 3], ["extract"], rec(1)])
     hist([["fail", 0], ["extract"], rec(1)])
     hist([["fire", 3], ["fire", 4]])
+    # exception identity is not state: a Deferred failed WITH DeferredNotFired / ImpossibleDeferredError
+    for t in (NOTFIRED, IMPOSSIBLE, 4):
+        hist([["fail", t]] + tri + [rec(1)])
+        hist([["fail", t], ["extract"], rec(1)])
+        hist([["fail", t], ["match", ["failed", ["is", t]]], ["match", ["failed", ["is", 1]]], rec(1)])
+        hist([["add", ["raise", t], ["pass"]], ["fire", 3], ["match", ["noresult"]], ["extract"], rec(1)])
+        hist([["pause"], ["fail", t], ["extract"], ["match", ["noresult"]], ["unpause"], ["extract"]])
+        hist([["add", ["wait"], ["wait"]], ["fire", 0], ["extract"], ["resume", "err", t]] + tri + [["extract"]])
     # a failure is inspected and the Deferred dropped: nothing may be logged; not inspected: logged
     for m in MATCHERS[1:]:
         hist([rec(1), ["fail", 1], ["match", m]])
